@@ -79,10 +79,10 @@ CLAIMED = {
             "exhaustion). SMILES<->graph clauses need RDKit and are outside."),
     "C11": ("Bounded symbolic model checking of Automorphism (count and orbits against the z3 formula over all "
             "component-wise permutations, labels symbolic), AutoEst (never separates a true orbit) and "
-            "deduplicate_matches_with_anchor (order-preserving sub-list, idempotent) on the real code.",
+            "deduplicate_matches_with_anchor (order-preserving sub-list, idempotent) on the real code; plus the pruning "
+            "clause: SynReactor's pruned result set equals gluing every raw match, up to ITS isomorphism.",
             "Bounds: all graphs <=4 nodes (thorough: 5 nodes <=5 bonds, C6, K2,3); element {C,N}, charge {0,1}, order "
-            "{1,2}. The clause 'symmetry pruning during rule application loses nothing' is decided by the reactor "
-            "harness (see C05) and is not part of this check's claim."),
+            "{1,2}; pruning clause: k<=3 templates on substrates <=3 atoms and the [2+2] family (harness shared with C05)."),
     "C12": ("Bounded symbolic model checking of both MCSMatcher copies on the real code: every returned mapping is a common "
             "induced subgraph (formula over symbolic elements/orders), maximum mode returns equal sizes and the formula "
             "'a larger common induced subgraph exists' is unsatisfiable on every path, directions are mutually inverse.",
